@@ -20,6 +20,13 @@
 (*  ensemble     : "0 / n", then "k / n" with its ETA after iteration k for  *)
 (*                 k = 1 .. n, then "n / n".                                 *)
 (*  display off  : nothing at all is written.                               *)
+(*  tempering    : ParallelTempering.advance(n, swap_interval) runs          *)
+(*                 c = n div swap_interval exchange cycles in k groups       *)
+(*                 (k = 50, or c when c > 50) and writes one percentage       *)
+(*                 message per group: the j-th names floor(100 j / k) % when  *)
+(*                 j * (c div k) cycles (1 per group when c > 50) are done,   *)
+(*                 with ETA = floor(elapsed * (k / j - 1)); the closing        *)
+(*                 message comes after ALL c cycles and n steps.              *)
 (*                                                                         *)
 (* Events come from real calls whose standard output is captured write by   *)
 (* write, under a simulated clock (integer milliseconds in the log).        *)
@@ -30,7 +37,10 @@ VARIABLES l, st
 \* st: [call, m, disp, t0, k, steps, dl]   call = "" between runs;  k = messages seen so far in this run;  steps = steps reported last
 vars == <<l, st>>
 Ev == Log[l]
-Idle == [call |-> "", m |-> 0, disp |-> FALSE, t0 |-> 0, k |-> 0, steps |-> 0, dl |-> 0, fin |-> FALSE]
+Idle == [call |-> "", m |-> 0, disp |-> FALSE, t0 |-> 0, k |-> 0, steps |-> 0, dl |-> 0, fin |-> FALSE, si |-> 1]
+PtCycles == st.m \div st.si
+PtGroups == IF PtCycles > 50 THEN PtCycles ELSE 50
+PtPerGroup == IF PtCycles > 50 THEN 1 ELSE PtCycles \div 50
 TraceInit == TLCSet(1, 1) /\ l = 1 /\ st = Idle
 \* whole seconds of d milliseconds (the simulated clock is exact to well below a millisecond: one millisecond of slack either way)
 SecOK(sec, d) == sec * 1000 <= d + 1 /\ d - 1 < (sec + 1) * 1000
@@ -69,14 +79,24 @@ Valid ==
                                  \/ st.k = st.m + 1 /\ Ev.k = st.m                        \* the closing "n / n"
                             ELSE /\ st.k \in 1..st.m /\ Ev.k = st.k /\ Ev.done = Ev.k
                                  /\ EtaOK(Ev.eta, Ev.t - st.t0, Ev.k, st.m)
+    [] Ev.ev = "PtPct" -> /\ st.call = "pt_advance" /\ ~st.fin
+                          /\ st.k < PtGroups
+                          /\ Ev.pct = (100 * (st.k + 1)) \div PtGroups
+                          /\ Ev.cyc = (st.k + 1) * PtPerGroup
+                          /\ EtaOK(Ev.eta, Ev.t - st.t0, st.k + 1, PtGroups)
+    [] Ev.ev = "PtDone" -> /\ st.call = "pt_advance" /\ ~st.fin
+                           /\ st.k = PtGroups /\ Ev.cyc = PtCycles /\ Ev.steps = st.m
     [] Ev.ev = "End" -> /\ st.call # ""
                         /\ Ev.added = (IF st.call = "run_for" THEN st.steps ELSE st.m) \/ (st.call = "run_for" /\ ~st.disp)
                         /\ (st.disp => st.fin)
                         /\ (~st.disp => st.k = 0)
     [] OTHER -> FALSE      \* "Other": text that is none of the messages; any message while the display is off
 NewSt ==
-  CASE Ev.ev = "Begin" -> [call |-> Ev.call, m |-> Ev.m, disp |-> Ev.display, t0 |-> Ev.t, k |-> 0, steps |-> 0, dl |-> Ev.t + Ev.m, fin |-> FALSE]
+  CASE Ev.ev = "Begin" -> [call |-> Ev.call, m |-> Ev.m, disp |-> Ev.display, t0 |-> Ev.t, k |-> 0, steps |-> 0, dl |-> Ev.t + Ev.m, fin |-> FALSE,
+                           si |-> IF "si" \in DOMAIN Ev THEN Ev.si ELSE 1]
     [] Ev.ev = "Pct" -> [st EXCEPT !.k = @ + 1]
+    [] Ev.ev = "PtPct" -> [st EXCEPT !.k = @ + 1]
+    [] Ev.ev = "PtDone" -> [st EXCEPT !.fin = TRUE]
     [] Ev.ev = "Count" -> [st EXCEPT !.k = @ + 1, !.steps = Ev.steps]
     [] Ev.ev = "Iter" -> [st EXCEPT !.k = @ + 1, !.fin = (Ev.plain /\ st.k > 0)]
     [] Ev.ev = "Final" -> [st EXCEPT !.fin = TRUE]
